@@ -1,1 +1,59 @@
-From E2V Require Import Bitmap.RBModel.
+(* C16 - every bitmap implementation behaves as a set of integers.
+   Only statements, closed by exact, with Print Assumptions beneath. *)
+From E2V Require Import Bitmap.BmGen Bitmap.RBModel Bitmap.BAModel Bitmap.FSetLemmas
+     Bitmap.BackendOk Bitmap.RBProofs Bitmap.BAProofs Bitmap.GenProofs.
+Local Open Scope N_scope.
+
+(* The rbtree back end, driven through the generic layer, returns for every
+   operation sequence exactly what the reference set of integers returns. *)
+Theorem rb_refines_set : forall g ops,
+  Forall (op_pre g) ops -> run0 RB g ops = run0 FSet g ops.
+Proof. exact (run0_sim RB inv rb_mem RB_ok). Qed.
+Print Assumptions rb_refines_set.
+
+(* Same for the bit array, for every alignment of the array in memory. *)
+Theorem ba_refines_set : forall al g ops,
+  Forall (op_pre g) ops -> run0 (BA al) g ops = run0 FSet g ops.
+Proof. exact (fun al => run0_sim (BA al) (fun _ => True) tb (BA_ok al)). Qed.
+Print Assumptions ba_refines_set.
+
+Theorem backends_agree : forall al g ops,
+  Forall (op_pre g) ops -> run0 RB g ops = run0 (BA al) g ops.
+Proof. exact (fun al g ops F => eq_trans (rb_refines_set g ops F) (eq_sym (ba_refines_set al g ops F))). Qed.
+Print Assumptions backends_agree.
+
+Theorem ba_align_irrelevant : forall al al' g ops,
+  Forall (op_pre g) ops -> run0 (BA al) g ops = run0 (BA al') g ops.
+Proof. exact (fun al al' g ops F => eq_trans (ba_refines_set al g ops F) (eq_sym (ba_refines_set al' g ops F))). Qed.
+Print Assumptions ba_align_irrelevant.
+
+(* Every reachable rbtree state keeps its extents sorted, disjoint, non-adjacent
+   and non-empty, with unique node identities and a coherent read cursor. *)
+Theorem rb_invariant_step : forall st a n,
+  inv st ->
+  inv (fst (rb_insert_extent st a n)) /\ inv (fst (rb_remove_extent st a n)) /\ inv (fst (rb_test_bit st a)).
+Proof. exact rb_inv_step. Qed.
+Print Assumptions rb_invariant_step.
+
+(* What the reference answers for find-first means: the least position. *)
+Theorem find_first_is_least : forall (m : fset) w n a p,
+  f_scan m w a n = Some p ->
+  a <= p < a + N.of_nat n /\ m p = w /\ forall x, a <= x < p -> m x <> w.
+Proof. exact f_scan_some. Qed.
+Print Assumptions find_first_is_least.
+
+Theorem find_first_none : forall (m : fset) w n a,
+  f_scan m w a n = None -> forall x, a <= x < a + N.of_nat n -> m x <> w.
+Proof. exact f_scan_none_inv. Qed.
+Print Assumptions find_first_none.
+
+(* Non-vacuity: a concrete sequence meeting the hypotheses, with its result. *)
+Definition ex_g := mkGeom 1 40 47 0.
+Definition ex_ops := [MarkRange 5 5; Mark 10; SetRange 9 16 (repeat true 4 ++ repeat false 4 ++ repeat true 4 ++ repeat false 4);
+                      Unmark 4; Test 10; FindZero 9 40; FindSet 13 40; TestRange 13 4; GetRange 1 12; Snapshot; Mark 40; Compare].
+Example ex_pre : Forall (op_pre ex_g) ex_ops.
+Proof. repeat constructor; vm_compute; try reflexivity; intro; discriminate. Qed.
+Example ex_run : run0 RB ex_g ex_ops =
+  [RVoid; RInt 0; RVoid; RInt 0; RInt 1; RPos 13; RPos 17; RInt 1;
+   RBits [false; false; false; false; true; true; true; true; true; true; true; true]; RVoid; RInt 0; RErr NEQ].
+Proof. vm_compute. reflexivity. Qed.
